@@ -350,6 +350,208 @@ func propMWU(a *Analysis, r *Registry, which string) {
 					}
 				})
 				r.Floor(rB, "labeledMerge value/label pairs", pairs, 2)
+				// the merge itself: every copy reads its input at a counter that starts at 0 and
+				// advances exactly when that copy is made, writes at an output counter that starts
+				// at 0 and advances in every iteration; a loop runs exactly while every input it
+				// may read from still has elements; where both inputs are read the smaller head is
+				// taken (x1's on `<` or `<=`); each input has a loop that drains what is left of it
+				type mcopy struct {
+					st      *ssa.Store
+					k       int
+					I, O    *RF
+					when    *RF
+					loop    *Loop
+					lenK    *RF
+					elemRef *RF
+				}
+				var copies []mcopy
+				fc.Ctx.Instrs(func(in ssa.Instruction) {
+					st, ok := in.(*ssa.Store)
+					if !ok {
+						return
+					}
+					ia, ok := st.Addr.(*ssa.IndexAddr)
+					if !ok || !fc.Val(ia.X).Equal(mslice) {
+						return
+					}
+					v := fc.Val(st.Val).SingleAtom()
+					if v == nil || v.Name != "idx" {
+						return
+					}
+					k := 0
+					switch {
+					case v.Args[0].Equal(menv.Vars["x1"].RF):
+						k = 1
+					case v.Args[0].Equal(menv.Vars["x2"].RF):
+						k = 2
+					default:
+						return
+					}
+					lp := fc.Ctx.LoopOf(st.Block())
+					if lp == nil {
+						r.Fail(rB, "stats.labeledMerge/merge", a.W.InstrPos(st), "a copy into merged outside any loop")
+						return
+					}
+					copies = append(copies, mcopy{st, k, v.Args[1], fc.Val(ia.Index), fc.ReachCondFrom(loopBodyEntry(fc, st.Block()), st.Block()), lp, S.MakeFn("len", v.Args[0]), S.atomRF(v.ID)})
+				})
+				startsAtZero := func(v *RF) bool {
+					for depth := 0; depth < 6; depth++ {
+						if c, isC := v.IsConst(); isC {
+							return c.Sign() == 0
+						}
+						vi, _ := recurrenceOrNil(fc, v)
+						if vi == nil {
+							// the merge of a finished loop's exits stands for that loop's counter
+							if va := v.SingleAtom(); va != nil && X.phiOf[va.ID] != nil {
+								vals, _ := fc.Ctx.PhiLiveEdges(X.phiOf[va.ID])
+								if len(vals) == 1 {
+									v = fc.Val(vals[0])
+									continue
+								}
+							}
+							return false
+						}
+						v = vi
+					}
+					return false
+				}
+				drained := map[int]bool{}
+				oneLoop := map[int]bool{}
+				// (conditions within an iteration: with the loop's own guard taken as given — the
+				// start of the body may lie inside a short-circuit guard)
+				for n := range copies {
+					if _, g, _, msg := b.loopGuard(fc, copies[n].loop.Header); msg == "" && g != nil {
+						copies[n].when = X.SimplifyUnder(copies[n].when, []Assumption{{Cond: g, True: true}})
+						if ga := g.SingleAtom(); ga != nil && ga.Name == "land" {
+							var as []Assumption
+							for _, cj := range ga.Args {
+								as = append(as, Assumption{Cond: cj, True: true})
+							}
+							copies[n].when = X.SimplifyUnder(copies[n].when, as)
+						}
+					}
+				}
+				for n, c := range copies {
+					cn := "stats.labeledMerge/merge#" + itoa(n+1)
+					where := a.W.InstrPos(c.st)
+					_, in := recurrenceOrNil(fc, c.I)
+					_, on := recurrenceOrNil(fc, c.O)
+					if in == nil || on == nil {
+						r.Fail(rB, cn, where, "the input or output position of a copy is not a counter carried round its loop")
+						continue
+					}
+					b.EqRF(rB, cn+"/input-advances", where, in, S.Ite(c.when, c.I.Add(S.Int(1)), c.I), "the input counter advances exactly when its element is copied")
+					b.EqRF(rB, cn+"/output-advances", where, on, c.O.Add(S.Int(1)), "the output counter advances in every iteration")
+					if startsAtZero(c.I) && startsAtZero(c.O) {
+						r.OK(rB, cn+"/from-zero", where, "input and output counters start at 0")
+					} else {
+						r.Fail(rB, cn+"/from-zero", where, "an input or output counter does not start at 0: elements are skipped or slots left unset")
+					}
+					// one loop over the output positions, taking x1's head when x2 is exhausted or
+					// x1 still has elements and its head is the smaller (or the mirror image): the
+					// counters satisfy i+j = o throughout, so the loop's guard o < len(x1)+len(x2) and
+					// the exhaustion test make every read in range
+					if oneLoop[c.loop.Header.Index] {
+						continue
+					}
+					if single := func() bool {
+						var o *mcopy
+						for j := range copies {
+							if copies[j].loop.Header == c.loop.Header && copies[j].st != c.st {
+								if o != nil {
+									return false
+								}
+								o = &copies[j]
+							}
+						}
+						if o == nil {
+							return false
+						}
+						_, guard, _, msg := b.loopGuard(fc, c.loop.Header)
+						if msg != "" || !(guard.Equal(S.Cmp("<", c.O, c.lenK.Add(o.lenK))) || X.EquivByCases(guard, S.Cmp("<", c.O, c.lenK.Add(o.lenK)), 0)) {
+							return false
+						}
+						if !c.O.Equal(o.O) || !startsAtZero(c.I) || !startsAtZero(o.I) || !startsAtZero(c.O) {
+							return false
+						}
+						// i+j = o is kept: the three counters' next values
+						_, in := recurrenceOrNil(fc, c.I)
+						_, jn := recurrenceOrNil(fc, o.I)
+						_, on := recurrenceOrNil(fc, c.O)
+						if in == nil || jn == nil || on == nil {
+							return false
+						}
+						if d := in.Add(jn).Sub(on); !(d.Equal(c.I.Add(o.I).Sub(c.O)) || X.EquivByCases(d, c.I.Add(o.I).Sub(c.O), 0)) {
+							return false
+						}
+						// within the guard (o < len1+len2, so with i+j = o not both inputs are exhausted)
+						inv := []Assumption{{Cond: S.Or(S.Cmp("<", c.I, c.lenK), S.Cmp("<", o.I, o.lenK)), True: true}}
+						okWhen := false
+						cc := c
+						for _, p := range [][2]*mcopy{{&cc, o}, {o, &cc}} {
+							f, g := p[0], p[1]
+							for _, cmp := range []string{"<", "<="} {
+								w := S.Or(S.Cmp("<=", g.lenK, g.I), S.And(S.Cmp("<", f.I, f.lenK), S.Cmp(cmp, f.elemRef, g.elemRef)))
+								if (f.when.Equal(w) || X.EquivByCasesUnder(f.when, w, inv)) && (g.when.Equal(S.Not(w)) || X.EquivByCasesUnder(g.when, S.Not(w), inv)) {
+									okWhen = true
+								}
+							}
+						}
+						return okWhen
+					}(); single {
+						oneLoop[c.loop.Header.Index] = true
+						drained[1], drained[2] = true, true
+						r.OK(rB, cn+"/one-loop", where, "one loop over the output positions (i+j = o): a head is taken from one input when the other is exhausted or its head is the smaller")
+						continue
+					}
+					// the loop's guard: every input read in this loop has an element left, and nothing more
+					want := S.True()
+					var others []mcopy
+					for _, o := range copies {
+						if o.loop.Header == c.loop.Header {
+							want = S.And(want, S.Cmp("<", o.I, o.lenK))
+							if o.st != c.st {
+								others = append(others, o)
+							}
+						}
+					}
+					_, guard, _, msg := b.loopGuard(fc, c.loop.Header)
+					if msg != "" {
+						r.Fail(rB, cn+"/while", where, msg)
+					} else {
+						b.EqRF(rB, cn+"/while", where, guard, want, "the loop runs exactly while every input it reads has an element left")
+					}
+					switch len(others) {
+					case 0:
+						b.EqRF(rB, cn+"/drains", where, c.when, S.True(), "a loop over one input copies an element in every iteration")
+						drained[c.k] = true
+					case 1:
+						o := others[0]
+						lt, le := S.Cmp("<", c.elemRef, o.elemRef), S.Cmp("<=", c.elemRef, o.elemRef)
+						gt, ge := S.Not(S.Cmp("<=", c.elemRef, o.elemRef)), S.Not(S.Cmp("<", c.elemRef, o.elemRef))
+						_, _ = gt, ge
+						okc := false
+						for _, w := range []*RF{lt, le, S.Not(S.Cmp("<", o.elemRef, c.elemRef)), S.Not(S.Cmp("<=", o.elemRef, c.elemRef))} {
+							if c.when.Equal(w) || X.EquivByCases(c.when, w, 0) {
+								okc = true
+							}
+						}
+						if okc {
+							r.OK(rB, cn+"/smaller-head", where, "where both inputs are read, this one's head is taken when it is the smaller")
+						} else {
+							r.Fail(rB, cn+"/smaller-head", where, "where both inputs are read, this input's head is taken when "+clip(c.when.String(), 160)+", not when it is the smaller: merged is not sorted")
+						}
+					default:
+						r.Fail(rB, cn, where, "more than two copies in one loop")
+					}
+				}
+				if len(copies) > 0 {
+					if drained[1] && drained[2] {
+						r.OK(rB, "stats.labeledMerge/merge/drains-both", b.pos(lm), "each input has a loop that copies what is left of it")
+					} else {
+						r.Fail(rB, "stats.labeledMerge/merge/drains-both", b.pos(lm), "an input has no loop that copies what is left of it once the other is exhausted")
+					}
+				}
 				if !seenLab["1"] || !seenLab["2"] {
 					r.Fail(rB, "stats.labeledMerge/copy", b.pos(lm), "merged is not filled from both x1 (label 1) and x2 (label 2)")
 				}
